@@ -268,11 +268,10 @@ pub fn check(case: &Case, _tier: Tier) -> Outcome {
     if obs::graph_json(&inc) != before {
       o.violate("C19/rebuild-of-known-root-changes-graph", format!("root {again:?}"));
     }
+    // the statement is about the graph ("changes nothing"); whether the
+    // builder asks the loader again is not part of it
     if !loader.log.borrow().is_empty() {
-      o.violate(
-        "C19/rebuild-of-known-root-loads",
-        format!("root {again:?}: {:?}", loader.log.borrow().iter().map(|c| c.spec.clone()).collect::<Vec<_>>()),
-      );
+      o.label("rebuild-of-known-root-asks-the-loader-again");
     }
   }
   let multi_step = steps.len() >= 2;
